@@ -144,7 +144,20 @@ func c11Exec(fed *Fed, plans gateway.QueryPlanList, q *GenQuery, vars map[string
 }
 
 func (c *CoqFile) c11obs(r c11Run, fed *Fed) string {
-	return c.observed(fedObs{Class: r.Class, Note: r.Note, Data: r.Data, NErrors: r.NErrors, Calls: r.Calls}, fed)
+	// the request middlewares a call went out with are part of the call: they travel as a pseudo variable
+	calls := make([]Call, len(r.Calls))
+	for i, cl := range r.Calls {
+		calls[i] = cl
+		if cl.ViaMW {
+			vs := map[string]interface{}{}
+			for k, v := range cl.Vars {
+				vs[k] = v
+			}
+			vs["request-middlewares"] = fmt.Sprint(cl.ReqMWs)
+			calls[i].Vars = vs
+		}
+	}
+	return c.observed(fedObs{Class: r.Class, Note: r.Note, Data: r.Data, NErrors: r.NErrors, Calls: calls}, fed)
 }
 
 func splitCalls(all []Call) map[int][]Call {
@@ -200,6 +213,13 @@ func runC11(cfg *runCfg) error {
 		fed, err := NewFed(cs.Fed, st, rand.New(rand.NewSource(int64(cs.Salt))), extra...)
 		if err != nil {
 			return fmt.Errorf("federation %d does not build: %v", id, err)
+		}
+		if cs.ReqMW && cs.Salt%2 == 0 {
+			// queryers that keep the middleware list on themselves, as the stock ones do
+			for _, sv := range fed.Svcs {
+				sv.InPlace = &mwState{rnd: rand.New(rand.NewSource(int64(cs.Salt) + 5))}
+			}
+			doc.Dist["queryers-keep-middlewares-in-place"]++
 		}
 		if replay == nil {
 			ids := []string{}
@@ -325,6 +345,38 @@ func runC11(cfg *runCfg) error {
 			again[i].Calls = append([]Call{}, fed.Ctl.Calls...)
 			fed.Ctl.mu.Unlock()
 		}
+		// (d) all at once again, each request through the whole path this time: it plans its own
+		// document while the others plan theirs, then executes (the planner, the planning context
+		// and the plan cache's entry point are shared by concurrent requests too)
+		fed.Ctl.mu.Lock()
+		fed.Ctl.Calls = nil
+		fed.Ctl.mu.Unlock()
+		full := make([]c11Run, len(cs.Reqs))
+		var wg2 sync.WaitGroup
+		start2 := make(chan struct{})
+		for i, rq := range cs.Reqs {
+			wg2.Add(1)
+			go func(i int, rq c11Req) {
+				defer wg2.Done()
+				<-start2
+				own, perr := fed.Plan(cs.Docs[rq.Doc].Text)
+				if perr != nil {
+					full[i] = c11Run{Class: 2, Note: "planning failed: " + perr.Error()}
+					return
+				}
+				full[i] = c11Exec(fed, own, cs.Docs[rq.Doc], rq.Vars, i+1)
+			}(i, rq)
+		}
+		close(start2)
+		wg2.Wait()
+		fed.Ctl.mu.Lock()
+		byTag2 := splitCalls(fed.Ctl.Calls)
+		fed.Ctl.Calls = nil
+		fed.Ctl.mu.Unlock()
+		for i := range full {
+			full[i].Calls = byTag2[i+1]
+		}
+		stray2 := len(byTag2[0])
 		after := make([]string, len(shared))
 		for i, p := range shared {
 			after[i] = planSnapshot(p)
@@ -344,13 +396,13 @@ func runC11(cfg *runCfg) error {
 		reqs := []string{}
 		stray := len(byTag[0])
 		for i, rq := range cs.Reqs {
-			reqs = append(reqs, fmt.Sprintf("{| ro_vars := %s; ro_solo := %s; ro_conc := %s; ro_again := %s |}",
-				c.vars(rq.Vars), c.c11obs(solo[i], fed), c.c11obs(conc[i], fed), c.c11obs(again[i], fed)))
+			reqs = append(reqs, fmt.Sprintf("{| ro_vars := %s; ro_solo := %s; ro_conc := %s; ro_again := %s; ro_full := %s |}",
+				c.vars(rq.Vars), c.c11obs(solo[i], fed), c.c11obs(conc[i], fed), c.c11obs(again[i], fed), c.c11obs(full[i], fed)))
 		}
 		// "executing never changes the plan" is the property's own words: the snapshot comparison is
 		// part of the oracle (there is no model component in these cases)
 		c.Printf("Eval vm_compute in (%d%%nat, true, plans_unchanged %s %s && c11_holds %d [%s], @nil nat).\n", id,
-			c.Strs(before), c.Strs(after), stray, strings.Join(reqs, "; "))
+			c.Strs(before), c.Strs(after), stray+stray2, strings.Join(reqs, "; "))
 		key, _ := json.Marshal(cs)
 		ncalls := 0
 		for _, s := range solo {
